@@ -227,6 +227,8 @@ class SimThread(kmod.RealThread):
         if not k:
             super().start()
             return
+        if getattr(self, '_sim_started', False):
+            raise RuntimeError('threads can only be started once')  # what threading.Thread.start() does
         k.yield_('thread.start')
         self._sim_started = True
         self._sim_task = k.spawn(self._sim_main, self.name, self._sim_kind)
